@@ -1,4 +1,5 @@
 import Driver.TransportCommon
+import RsMatterVerif.Model.RxPath
 /-! Driver for C10 (unit level): model correspondence + the property's specification on the
 implementation's own outputs (results and table snapshots):
 * a received message changes only the exchange identified by (session, exchange id, role), or opens
@@ -35,7 +36,127 @@ structure OSt where
   /-- (uid, slot) → time the last message was accepted for that exchange -/
   recvAt : List ((Nat × Nat) × Nat) := []
 
+/-! ### `node` cases: every op is one step of the transition system `Model/RxPath.lean`, replayed with
+`RxPath.step`; result, table snapshot and RX-slot content are compared with the real node's -/
+
+def kindOf : String → RxPath.Kind
+  | "a" => .sack
+  | "c" => .close
+  | "s" => .status
+  | "n" => .newSess
+  | _ => .other
+
+def rxShow : Option RxPath.Held → String
+  | none => "-"
+  | some r => s!"{r.m.port}/{r.m.sid}/{r.m.ctr}/{r.m.exch}"
+
+def nodeOp (n : RxPath.Node) (w : List String) : RxPath.Node × String :=
+  let num (i : Nat) : Nat := ((w.getD i "").toNat?).getD 0
+  let errS (e : Transport.Err) : String := if e = .panic then "panic" else s!"err {e.name}"
+  match w.getD 0 "" with
+  | "nsetup" =>
+    ({ n with t := { n.t with nextSid := max (num 1) 1, nextExch := max (num 2) 1 } }, "ok")
+  | "arr" =>
+    let m : RxPath.Msg := { port := num 1, sid := num 2, ctr := num 3, exch := num 4, initiator := w.getD 5 "" = "I", kind := kindOf (w.getD 6 "o"), ack := optNat (w.getD 7 "-"), reliable := w.getD 8 "" = "r" }
+    let r := RxPath.step n (.arrive m (num 9))
+    (r.1, match r.2 with
+      | .blocked => "blocked"
+      | .kept _ _ _ => "kept"
+      | _ => "drop")
+  | "acc" =>
+    let r := RxPath.step n .accept
+    (r.1, match r.2 with
+      | .accepted u i => s!"acc {u} {i}"
+      | _ => "blocked")
+  | "recv" =>
+    let r := RxPath.step n (.recv (num 1) (num 2))
+    (r.1, match r.2 with
+      | .delivered _ _ _ => "dlv"
+      | .gone => "gone"
+      | .retransPending => "retr"
+      | _ => "blocked")
+  | "send" =>
+    let r := RxPath.step n (.send (num 1) (num 2) (w.getD 3 "" = "r"))
+    (r.1, match r.2 with
+      | .ok => "ok"
+      | .err e => errS e
+      | .gone => "gone"
+      | _ => "blocked")
+  | "drop" =>
+    let r := RxPath.step n (.dropEx (num 1) (num 2))
+    (r.1, match r.2 with
+      | .ok => "ok"
+      | .err e => errS e
+      | _ => "blocked")
+  | "init" =>
+    let r := RxPath.step n (.initiate (num 1))
+    (r.1, match r.2 with
+      | .ok => "ok"
+      | .err e => errS e
+      | _ => "blocked")
+  | "est" =>
+    let r := RxPath.step n (.establish (num 1) (if w.getD 2 "" = "c" then .case else .pase) (num 3))
+    (r.1, match r.2 with
+      | .ok => "ok"
+      | .err e => errS e
+      | _ => "blocked")
+  | "rm" => ((RxPath.step n (.removeSess (num 1))).1, "ok")
+  | "t" => ((RxPath.step n (.tick (num 1))).1, "ok")
+  | "nuid" => ({ n with t := { n.t with nextUid := num 1 % 268435456 } }, "ok")
+  | "swa" =>
+    let r := RxPath.step n .sweepAccept
+    (r.1, match r.2 with
+      | .swept true => "swept 1"
+      | _ => "swept 0")
+  | "swo" =>
+    let r := RxPath.step n .sweepOrphan
+    (r.1, match r.2 with
+      | .swept true => "swept 1"
+      | _ => "swept 0")
+  | "swd" =>
+    let r := RxPath.step n .closer
+    (r.1, match r.2 with
+      | .closer (.closedSession _ xid ctr) => s!"sess x {xid} ctr {ctr}"
+      | .closer (.closedExchange _ _ xid (some (ctr, ack))) => s!"exch ack {ack} ctr {ctr} x {xid}"
+      | .closer (.closedExchange _ _ _ none) => "exch"
+      | _ => "none")
+  | _ => (n, "bad")
+
+/-- specification on the implementation's own outputs for `node` cases (property text): a `recv` that
+returns a message returns the one that was waiting, and only to an exchange of the session that
+message addresses (peer and session id) with its exchange id; `prevRx` = slot content before the op -/
+def nodeOracle (prevSnap : ISnap) (prevRx : String) (w : List String) (res : String) : Option String :=
+  if res = "panic" then some s!"the node panicked in `{w.getD 0 ""}`" else
+  if w.getD 0 "" = "recv" && res = "dlv" then
+    match prevRx.splitOn "/" with
+    | [p, sd, _, x] =>
+      match prevSnap.sess ((w.getD 1 "").toNat?.getD 0) with
+      | none => some "a message was delivered to an exchange of a session that does not exist"
+      | some s =>
+        let slot := (s.slots.getD ((w.getD 2 "").toNat?.getD 0) none)
+        if toString s.port != p || toString s.lsid != sd then
+          some s!"a message from peer {p} / session id {sd} was delivered to an exchange of session {s.uid} (peer {s.port}, session id {s.lsid})"
+        else match slot with
+          | none => some "a message was delivered to an empty exchange slot"
+          | some e => if toString e.id != x then some s!"a message for exchange {x} was delivered to exchange {e.id}" else none
+    | _ => some "a message was delivered although none was waiting"
+  else none
+
+/-- second clause (property text: a message that a responder accepted is handed to that exchange; the
+receive path does not wedge): `acc` = the exchange that last accepted and the message it accepted -/
+def nodeOracle2 (acc : Option (Nat × Nat × String)) (prevRx : String) (w : List String) (res : String) : Option String :=
+  match acc with
+  | some (u, i, m) =>
+    if w.getD 0 "" = "recv" && (w.getD 1 "").toNat? = some u && (w.getD 2 "").toNat? = some i && prevRx = m
+        && (res = "blocked" || res = "gone") then
+      some s!"exchange ({u}, {i}) accepted the waiting message {m} but its recv does not return it ({res}): the message is stuck in the RX slot"
+    else none
+  | none => none
+
 structure St where
+  node : Option RxPath.Node := none
+  nodePrev : ISnap × String := ({}, "-")
+  nodeAcc : Option (Nat × Nat × String) := none
   m : MSt := {}
   o : OSt := {}
   /-- `sys` cases: is this a system-level case, and how many replies the injected datagrams may cause -/
@@ -303,10 +424,36 @@ def step (st : St) (line : String) : St × String :=
   let (op, out) := splitArrow line
   match words op with
   | "case" :: _ :: kind =>
-    if kind.head? = some "sys2" then
+    if kind.head? = some "node" then
+      ({ m := newCase kind, node := some { now := 1000 } }, "case")
+    else if kind.head? = some "sys2" then
       ({ m := newCase kind, sys2 := some { handlers := kvNat kind "H", lat := kvNat kind "lat" } }, "case")
     else ({ m := newCase kind, sys := kind.head? = some "sys" }, "case")
   | w =>
+    match st.node with
+    | some nd =>
+      let (nd', res) := nodeOp nd w
+      let full := res ++ " # " ++ nd'.t.show ++ " @ " ++ rxShow nd'.rx
+      let (ires, irest) := splitHash out
+      let (isnap, irx) := match irest.splitOn " @ " with
+        | [a, b] => (a, b.trimAscii.toString)
+        | _ => (irest, "?")
+      let acc' : Option (Nat × Nat × String) :=
+        match words ires with
+        | ["acc", u, i] => some (u.toNat?.getD 0, i.toNat?.getD 0, irx)
+        | _ => match st.nodeAcc with
+          | some (u, i, m) =>
+            -- the clause ends when the message leaves the slot, or the owner sends / is dropped / loses its session
+            let op := w.getD 0 ""
+            let sameU := (w.getD 1 "").toNat? = some u
+            if irx != m || (sameU && (op = "drop" || op = "send" || op = "rm")) || ((parseSnap isnap).sess u).isNone then none
+            else some (u, i, m)
+          | none => none
+      let st' := { st with node := some nd', nodePrev := (parseSnap isnap, irx), nodeAcc := acc' }
+      match (nodeOracle st.nodePrev.1 st.nodePrev.2 w ires).orElse (fun _ => nodeOracle2 st.nodeAcc st.nodePrev.2 w ires) with
+      | some why => (st', s!"ORA {why}")
+      | none => if full = out then (st', "ok") else (st', s!"DIS {full}")
+    | none =>
     match st.sys2 with
     | some s2 =>
       let (s2', o) := sys2Step s2 w out
